@@ -1,1 +1,1 @@
-def wedgeScaleIsDivTiltNorms : Bool := false
+def wedgeScaleIsDivTiltNorms : Bool := true
